@@ -120,6 +120,8 @@ def file_rules(P, chk):
             # IO for an empty glob names the pattern, not a file being read: only closures (map_err) are the read/parse errors
             if rv2["variant"] == "IO" and not x.is_closure:
                 continue
+            if rv2["variant"] == "IO" and any(r.kind == "call" and str(r.name).endswith("io::Error::new") for r in prov(x, rv2["fields"][0]["op"])):
+                continue        # the error made up for an empty glob (wherever that code sits): it names the pattern
             pf = rv2["fields"][-1]["op"]
             rs = prov(x, pf)
             good = bool(rs)
@@ -134,7 +136,7 @@ def file_rules(P, chk):
             npar += 1
             chk.require(good, R_FILE, "load_impl|LoadError::%s names the file being read" % rv2["variant"], x.loc(abb2),
                         "the error carries %s" % sorted(mir.show_root(r) for r in rs), "canonical path of the current file")
-    chk.floor("LoadError constructions naming a file", npar, 3)
+    chk.floor("LoadError constructions naming a file", npar, 2)
 
 
 def line_rules(P, chk):
